@@ -101,3 +101,53 @@ def module_raw_codec(H, case):
     if K.is_enum_type(t):
         H.check("restored_is_member", isinstance(got, t))
     H.cover("reached")
+
+
+def ranged_controller_cases(tier):
+    out = []
+    for cid, (cname, name) in K.controller_cases(tier):
+        t = K.class_by_name(cname).controllers[name].value_type
+        if isinstance(t, (Range, DependentRange)):
+            out.append((cid, (cname, name)))
+    return out
+
+
+@contract(
+    "pattern_value", ["C10"],
+    targets=["rv.controller:Controller.pattern_value", "rv.controller:Controller.instance_value_type"],
+    cases=ranged_controller_cases,
+)
+def pattern_value(H, case):
+    """Range kind: pv(min) == 0, pv(max) == 0x8000, v <= w  ==>  pv(v) <= pv(w), 0 <= pv(v) <= 0x8000.
+    Compact kind: pv(v) == v - min.  (binary64 arithmetic per rvproof.floats)"""
+    cname, name = case
+    cls = K.class_by_name(cname)
+    m = cls()
+    ctl = cls.controllers[name]
+    t = ctl.value_type
+    if isinstance(t, DependentRange):
+        t = K.unit_cases(H, m, ctl)
+    v = H.int("v", t.min, t.max)
+    w = H.int("w", t.min, t.max)
+    pv = H.call(ctl.pattern_value, m, v)
+    if isinstance(t, CompactRange):
+        H.check("compact_is_value_minus_min", pv == v - t.min)
+        return
+    pw = H.call(ctl.pattern_value, m, w)
+    H.check("min_maps_to_0", H.call(ctl.pattern_value, m, t.min) == 0)
+    H.check("max_maps_to_0x8000", H.call(ctl.pattern_value, m, t.max) == 0x8000)
+    H.check("monotone", H.implies(v <= w, pv <= pw))
+    H.check("within_0_0x8000", H.and_(pv >= 0, pv <= 0x8000))
+    H.cover("reached")
+
+
+@contract(
+    "pattern_value_canary", ["C10"], targets=["rv.controller:Controller.pattern_value"], canary=True,
+    cases=lambda tier: [("Amplifier.volume", ("Amplifier", "volume"))],
+)
+def pattern_value_canary(H, case):
+    cls = K.class_by_name(case[0])
+    m = cls()
+    ctl = cls.controllers[case[1]]
+    v = H.int("v", ctl.value_type.min, ctl.value_type.max)
+    H.check("canary_below_0x8000", H.call(ctl.pattern_value, m, v) < 0x8000)
